@@ -140,3 +140,245 @@ def parser_cases(rnd, n_mut, n_soup, n_lists, valid_only=False):
 
 def case_lines(cases):
     return "".join("%s %s\n" % (e, s.hex() if s else "-") for (e, s) in cases)
+
+
+# ---------------------------------------------------------------- reference-grammar sentences (G), written from the documentation
+class G:
+    """A small generator of sentences of the Spanner GoogleSQL grammar: expressions with every operator level, literals in every
+    quote form, identifiers that need quoting, queries (joins, set operators, WITH, ORDER/LIMIT), DML and common DDL."""
+
+    def __init__(self, rnd, keywords=()):
+        self.r = rnd
+        self.keywords = list(keywords)
+
+    def pick(self, xs):
+        return self.r.choice(xs)
+
+    def ident(self):
+        if self.keywords and self.r.random() < 0.08:
+            k = self.pick(self.keywords)          # every reserved keyword is a legal name once back-quoted
+            return "`%s`" % self.pick([k, k.lower(), k.capitalize()])
+        return self.pick(["a", "b", "c", "t", "x1", "_y", "Singers", "`select`", "`a b`", "`IF`", "col", "`日本`", "Albums", "v2", "`x-1`"])
+
+    def path(self):
+        return ".".join(self.ident() for _ in range(self.r.randrange(1, 4)))
+
+    def lit(self):
+        return self.pick(["1", "0", "42", "0x1F", "1.5", "0.5", "1.", "1e3", "2.5E-3", "'s'", '"d"', "'''t\nu'''", "r'a\\b'", "b'x\\x00'", "rb'y'",
+                          "'it''s'".replace("''", "\\'"), '"q\\"q"', "'\\u00e9'", "'a;b'", "'--c'", "'/*c*/'", "TRUE", "FALSE", "NULL", "@p", "@q1",
+                          "DATE '2020-01-01'", "TIMESTAMP '2020-01-01 00:00:00'", "NUMERIC '1.5'", "JSON '{}'", "[1, 2]", "ARRAY<INT64>[1]", "ARRAY[]",
+                          "(1, 2)", "STRUCT(1 AS a, 2)", "STRUCT<a INT64>(1)", "b\"\"\"z\"\"\"", "'\\n\\t'", "`q`.`r`", "INTERVAL 1 DAY"][:38])
+
+    def typ(self, d=0):
+        k = self.r.randrange(6 if d < 2 else 3)
+        if k < 3:
+            return self.pick(["INT64", "STRING", "BOOL", "FLOAT64", "BYTES", "DATE", "TIMESTAMP", "NUMERIC", "JSON", "p.Q", "int64", "String",
+                              "`INT64`", "`bool`", "`Date`", "`p`.`Q`", "FLOAT32", "TOKENLIST", "`my type`"])
+        if k == 3:
+            return "ARRAY<%s>" % self.typ(d + 1)
+        if k == 4:
+            return "STRUCT<%s>" % ", ".join((self.ident() + " " if self.r.random() < 0.7 else "") + self.typ(d + 1) for _ in range(self.r.randrange(0, 3)))
+        return self.pick(["ARRAY<STRUCT<a ARRAY<INT64>>>", "STRUCT<>", "ARRAY<ARRAY<INT64>>"])
+
+    def atom(self, d):
+        k = self.r.randrange(14 if d < 3 else 4)
+        if k < 2:
+            return self.lit()
+        if k < 4:
+            return self.path()
+        if k == 4:
+            return "(%s)" % self.expr(d + 1)
+        if k == 5:
+            if self.r.random() < 0.2:
+                return "IF(%s, %s, %s)" % (self.expr(d + 1), self.expr(d + 1), self.expr(d + 1))
+            return "%s(%s)" % (self.pick(["f", "COUNT", "safe.g", "ARRAY_AGG", "COALESCE"]), ", ".join(self.expr(d + 1) for _ in range(self.r.randrange(0, 3))))
+        if k == 6:
+            return "CASE %sWHEN %s THEN %s %sEND" % (self.pick(["", self.expr(d + 1) + " "]), self.expr(d + 1), self.expr(d + 1), self.pick(["", "ELSE %s " % self.expr(d + 1)]))
+        if k == 7:
+            return "%sCAST(%s AS %s)" % (self.pick(["", "SAFE_"]), self.expr(d + 1), self.typ())
+        if k == 8:
+            return "%s[%s(%s)]" % (self.postfix_base(d + 1), self.pick(["OFFSET", "ORDINAL", "SAFE_OFFSET"]), self.expr(d + 1))
+        if k == 9:
+            return "(%s)" % self.query(d + 1)
+        if k == 10:
+            return self.pick(["EXISTS(%s)", "ARRAY(%s)"]) % self.query(d + 1)
+        if k == 11:
+            return "EXTRACT(%s FROM %s)" % (self.pick(["YEAR", "DAY", "DATE"]), self.expr(d + 1))
+        if k == 12:
+            return "COUNT(*)"
+        return "%s.%s" % (self.postfix_base(d + 1), self.ident())
+
+    def postfix_base(self, d):
+        """what may stand in front of .field / [index]: a path, a call, a parenthesised expression, another postfix"""
+        k = self.r.randrange(4)
+        if k == 0:
+            return self.path()
+        if k == 1:
+            return "(%s)" % self.expr(d + 1)
+        if k == 2:
+            return "f(%s)" % self.expr(d + 1)
+        return "%s[OFFSET(0)]" % self.path()
+
+    # precedence levels of the GoogleSQL operator table (smaller binds tighter)
+    LEVELS = {3: ["*", "/", "||"], 4: ["+", "-"], 5: ["<<", ">>"], 6: ["&"], 7: ["^"], 8: ["|"], 11: ["AND"], 12: ["OR"]}
+    CMP = ["=", "!=", "<>", "<", "<=", ">", ">=", "LIKE", "NOT LIKE"]
+
+    def expr(self, d=0, level=12):
+        """an expression whose outermost operator binds at least as tightly as [level]; operands are generated at the level the
+        table requires, with an occasional redundant parenthesis"""
+        if d > 5 or level <= 1:
+            return self.atom(d)
+        if self.r.random() < 0.12:
+            return "(%s)" % self.expr(d + 1, 12)
+        L = self.r.choice([l for l in (0, 0, 2, 3, 4, 5, 6, 7, 8, 9, 9, 10, 11, 12) if l <= level])
+        if L == 0:
+            return self.atom(d)
+        if L in self.LEVELS:
+            return "%s %s %s" % (self.expr(d + 1, L), self.pick(self.LEVELS[L]), self.expr(d + 1, L - 1 if L != 11 else 10))
+        if L == 2:
+            op = self.pick(["-", "+", "~"])
+            x = self.expr(d + 1, 2)
+            return op + (" " if x[:1] in "-+" or self.r.random() < 0.3 else "") + x
+        if L == 10:
+            return "NOT " + self.expr(d + 1, 10)
+        # L == 9: the non-associative comparison family, operands one level tighter
+        k = self.r.randrange(5)
+        x = self.expr(d + 1, 8)
+        if k < 2:
+            return "%s %s %s" % (x, self.pick(self.CMP), self.expr(d + 1, 8))
+        if k == 2:
+            return "%s %sIN %s" % (x, self.pick(["", "NOT "]), self.pick(["(1, 2)", "UNNEST([1])", "(SELECT 1)", "(%s)" % self.expr(d + 1, 12), "(%s, %s)" % (self.expr(d + 1), self.expr(d + 1))]))
+        if k == 3:
+            return "%s %sBETWEEN %s AND %s" % (x, self.pick(["", "NOT "]), self.expr(d + 1, 8), self.expr(d + 1, 8))
+        return "%s IS %s%s" % (x, self.pick(["", "NOT "]), self.pick(["NULL", "TRUE", "FALSE"]))
+
+    def select_item(self, d):
+        k = self.r.randrange(6)
+        if k == 0:
+            return self.pick(["*", "t.*", "* EXCEPT (a, b)", "* REPLACE (1 AS a)"])
+        e = self.expr(d + 2)
+        return e + self.pick(["", "", " AS " + self.ident(), " " + self.pick(["x", "y", "`z z`"])])
+
+    def table(self, d):
+        k = self.r.randrange(7 if d < 2 else 3)
+        if k < 3:
+            return self.path() + self.pick(["", " AS " + self.ident(), " " + self.pick(["u", "v"]), "@{FORCE_INDEX=i}", " TABLESAMPLE BERNOULLI (1 PERCENT)"])
+        if k == 3:
+            return "(%s) %s" % (self.select(d + 1), self.pick(["", "AS s"]))
+        if k == 4:
+            return "UNNEST(%s)%s" % (self.expr(3), self.pick(["", " AS e", " WITH OFFSET", " AS e WITH OFFSET AS o"]))
+        if k == 5:
+            op = self.pick(["JOIN", "INNER JOIN", "LEFT JOIN", "LEFT OUTER JOIN", "CROSS JOIN", "FULL JOIN", ",", "RIGHT JOIN", "HASH JOIN"])
+            cond = "" if op in ("CROSS JOIN", ",") else self.pick([" ON %s" % self.expr(3), " USING (a)", " USING (a, b)"])
+            return "%s %s %s%s" % (self.table(d + 1), op, self.table(3), cond)
+        return "(%s JOIN %s ON TRUE)" % (self.table(3), self.table(3))
+
+    def select(self, d):
+        s = "SELECT %s%s%s" % (self.pick(["", "", "DISTINCT ", "ALL ", "AS STRUCT ", "AS VALUE "]),
+                               ", ".join(self.select_item(d) for _ in range(self.r.randrange(1, 4))), self.pick(["", "", ","]) if False else "")
+        if self.r.random() < 0.8:
+            s += " FROM " + self.table(d)
+            if self.r.random() < 0.5:
+                s += " WHERE " + self.expr(d + 2)
+            if self.r.random() < 0.3:
+                s += " GROUP BY " + ", ".join(self.expr(3) for _ in range(self.r.randrange(1, 3)))
+                if self.r.random() < 0.4:
+                    s += " HAVING " + self.expr(3)
+        return s
+
+    def query(self, d=0):
+        k = self.r.randrange(8 if d < 2 else 4)
+        if k == 6 and d > 0:
+            k = 0
+        if k < 4:
+            q = self.select(d)
+        elif k == 4:
+            q = "%s %s %s" % (self.select(d + 1), self.pick(["UNION ALL", "UNION DISTINCT", "INTERSECT ALL", "EXCEPT DISTINCT"]), self.select(d + 1))
+        elif k == 5:
+            q = "(%s)" % self.query(d + 1)
+        elif k == 6:
+            q = "WITH %s AS (%s) %s" % (self.ident(), self.query(d + 1), self.select(d + 1))
+        else:
+            q = "%s UNION ALL %s UNION ALL %s" % (self.select(d + 1), self.select(d + 1), self.select(d + 1))
+        if self.r.random() < 0.3:
+            q += " ORDER BY " + ", ".join(self.expr(3) + self.pick(["", " ASC", " DESC"]) for _ in range(self.r.randrange(1, 3)))
+        if self.r.random() < 0.3:
+            q += " LIMIT " + self.pick(["1", "@n", "10"]) + self.pick(["", " OFFSET 2"])
+        if d == 0 and self.r.random() < 0.15:
+            q += " FOR UPDATE"
+        if d == 0 and self.r.random() < 0.1:
+            q += self.pick([" |> WHERE %s" % self.expr(3), " |> SELECT %s" % self.expr(3), " |> WHERE a |> SELECT b"])
+        if d == 0 and self.r.random() < 0.1:
+            q = "@{%s=%s} " % (self.pick(["k", "FORCE_INDEX", "x.y"]), self.pick(["1", "v", "'s'", "TRUE"])) + q
+        return q
+
+    def dml(self):
+        k = self.r.randrange(4)
+        if k == 0:
+            return "INSERT %s%s (a, b) VALUES (%s, %s)%s" % (self.pick(["", "INTO ", "OR IGNORE INTO ", "OR UPDATE "]), self.path(), self.expr(3), self.pick(["DEFAULT", self.expr(3)]),
+                                                         self.pick(["", ", (1, 2)", " THEN RETURN *"]))
+        if k == 1:
+            return "INSERT INTO %s (a) %s" % (self.path(), self.query(1))
+        if k == 2:
+            return "DELETE %s%s WHERE %s" % (self.pick(["", "FROM "]), self.path(), self.expr(2))
+        return "UPDATE %s SET a = %s, b.c = DEFAULT WHERE %s" % (self.path(), self.expr(3), self.expr(2))
+
+    def ddl(self):
+        k = self.r.randrange(8)
+        if k == 0:
+            cols = ", ".join("%s %s%s" % (self.ident(), self.pick(["INT64", "STRING(MAX)", "ARRAY<STRING(10)>", "BOOL", "TIMESTAMP"]),
+                                          self.pick(["", " NOT NULL", " DEFAULT (1)", " OPTIONS (allow_commit_timestamp = true)", " AS (a + 1) STORED"])) for _ in range(self.r.randrange(1, 4)))
+            return "CREATE TABLE %s%s (%s) PRIMARY KEY (%s)%s" % (self.pick(["", "IF NOT EXISTS "]), self.path(), cols, self.pick(["a", "a, b DESC"]),
+                                                               self.pick(["", ", INTERLEAVE IN PARENT p ON DELETE CASCADE", ", ROW DELETION POLICY (OLDER_THAN(ts, INTERVAL 30 DAY))"]))
+        if k == 1:
+            return "CREATE %s%sINDEX %s ON %s (a%s)%s" % (self.pick(["", "UNIQUE "]), self.pick(["", "NULL_FILTERED "]), self.ident(), self.path(), self.pick(["", " DESC, b"]),
+                                                       self.pick(["", " STORING (c)", ", INTERLEAVE IN p"]))
+        if k == 2:
+            return "ALTER TABLE %s %s" % (self.path(), self.pick(["ADD COLUMN c INT64", "DROP COLUMN c", "ADD COLUMN IF NOT EXISTS d STRING(MAX) NOT NULL",
+                                                                  "ALTER COLUMN c STRING(10)", "ADD CONSTRAINT fk FOREIGN KEY (a) REFERENCES t (b)", "SET ON DELETE NO ACTION",
+                                                                  "ADD CHECK (a > 0)", "ALTER COLUMN c SET DEFAULT (1)", "RENAME TO u", "ADD SYNONYM s"]))
+        if k == 3:
+            return self.pick(["DROP TABLE %s", "DROP TABLE IF EXISTS %s", "DROP INDEX %s", "DROP VIEW %s", "DROP SEQUENCE IF EXISTS %s", "DROP ROLE %s"]) % self.ident()
+        if k == 4:
+            return "CREATE %sVIEW %s SQL SECURITY %s AS %s" % (self.pick(["", "OR REPLACE "]), self.path(), self.pick(["INVOKER", "DEFINER"]), self.query(1))
+        if k == 5:
+            return self.pick(["CREATE SEQUENCE s OPTIONS (sequence_kind = 'bit_reversed_positive')", "CREATE CHANGE STREAM cs FOR t(a, b), u",
+                              "CREATE ROLE r", "GRANT SELECT, INSERT ON TABLE t TO ROLE r", "REVOKE SELECT(a) ON TABLE t FROM ROLE r",
+                              "ALTER DATABASE d SET OPTIONS (version_retention_period = '7d')", "CREATE DATABASE d", "ANALYZE",
+                              "CREATE SEARCH INDEX si ON t (tok)", "CREATE VECTOR INDEX vi ON t (emb) OPTIONS (distance_type = 'COSINE')",
+                              "ALTER INDEX i ADD STORED COLUMN c", "CREATE SCHEMA s", "ALTER SEQUENCE s SET OPTIONS (skip_range_min = 1)",
+                              "CREATE MODEL m INPUT (a INT64) OUTPUT (b FLOAT64) REMOTE OPTIONS (endpoint = 'e')", "RENAME TABLE a TO b, c TO d"])
+        if k == 6:
+            return "CALL %s(%s)" % (self.path(), ", ".join(self.expr(3) for _ in range(self.r.randrange(0, 3))))
+        return "CREATE PROPERTY GRAPH g NODE TABLES (n KEY (id) LABEL l PROPERTIES (a, b AS c)) EDGE TABLES (e SOURCE KEY (s) REFERENCES n (id) DESTINATION KEY (d) REFERENCES n (id))"
+
+
+def gen_keywords():
+    import re
+    p = os.path.join(ROOT, "coq", "theories", "Gen", "Keywords.v")
+    if not os.path.exists(p):
+        return []
+    return re.findall(r"\(\* ([A-Z_]+) \*\)", open(p).read())
+
+
+def sentence_cases(rnd, n):
+    g = G(rnd, gen_keywords())
+    out = []
+    for i in range(n):
+        k = i % 10
+        try:
+            if k < 4:
+                out.append(("ParseExpr", g.expr().encode()))
+            elif k < 7:
+                q = g.query()
+                out.append((rnd.choice(["ParseQuery", "ParseStatement"]), q.encode()))
+            elif k == 7:
+                out.append((rnd.choice(["ParseDML", "ParseStatement"]), g.dml().encode()))
+            elif k == 8:
+                s = g.ddl()
+                out.append(("ParseStatement" if s.startswith("CALL") or rnd.random() < 0.5 else "ParseDDL", s.encode()))
+            else:
+                out.append(("ParseType", g.typ().encode()))
+        except RecursionError:
+            pass
+    return out
